@@ -376,6 +376,11 @@ impl ModelG {
                 let _ = need!(*g, *a);
                 self.set(*g, *a, Pt::IDENTITY, &mut o);
             }
+            Step::SArith { .. } => {
+                for l in SARITH_LABELS {
+                    o.any(l);
+                }
+            }
             Step::ToMont { a } => {
                 let p = need!(0, *a);
                 o.b("u", &p.to_montgomery_u().to_bytes());
@@ -489,6 +494,8 @@ enum TableObj {
 
 /// raw-coordinate invariant of an Edwards point: curve equation, Segre relation, Z != 0.
 /// Returns the affine point read from the coordinates.
+pub const SARITH_LABELS: [&str; 21] = ["add", "sub", "mul", "neg", "square", "double", "field_invert_some", "field_invert", "invert", "sqrt_ratio_is_square", "sqrt_ratio", "sqrt_some", "sqrt", "batch_invert_product", "batch_inverted", "from_repr_some", "from_repr_vartime_some", "is_odd", "sum", "product", "wide"];
+
 fn coords_affine(p: &EdwardsPoint) -> Result<Pt, &'static str> {
     ed::check_extended(&verif_hooks::edwards_coords(p))
 }
@@ -1270,6 +1277,47 @@ impl RealG {
                 o.f("is_identity", IsIdentity::is_identity(&p));
                 o.f("is_small_order", p.is_small_order());
                 o.f("is_torsion_free", EdwardsPoint::is_torsion_free(&p));
+            }
+            Step::SArith { a, b } => {
+                use group::ff::{Field, PrimeField};
+                let x = Scalar::from_bytes_mod_order(a.b.a32());
+                let y = Scalar::from_bytes_mod_order(b.b.a32());
+                o.b("add", (x + y).as_bytes());
+                o.b("sub", (x - y).as_bytes());
+                o.b("mul", (x * y).as_bytes());
+                o.b("neg", (-x).as_bytes());
+                o.b("square", Field::square(&x).as_bytes());
+                o.b("double", Field::double(&x).as_bytes());
+                let fi: Option<Scalar> = Field::invert(&x).into();
+                o.f("field_invert_some", fi.is_some());
+                o.b("field_invert", fi.unwrap_or(Scalar::ZERO).as_bytes());
+                // the inherent inversion is only defined for non-zero scalars
+                o.b("invert", if x == Scalar::ZERO { Scalar::ZERO } else { x.invert() }.as_bytes());
+                let (c, r) = <Scalar as Field>::sqrt_ratio(&x, &y);
+                o.f("sqrt_ratio_is_square", bool::from(c));
+                o.b("sqrt_ratio", r.as_bytes());
+                let sq: Option<Scalar> = Field::sqrt(&x).into();
+                o.f("sqrt_some", sq.is_some());
+                o.b("sqrt", sq.unwrap_or(Scalar::ZERO).as_bytes());
+                let mut v: Vec<Scalar> = [x, y, x + y, x * y, x - y].into_iter().filter(|s| *s != Scalar::ZERO).collect();
+                let prod = Scalar::batch_invert(&mut v);
+                o.b("batch_invert_product", prod.as_bytes());
+                let mut cat = Vec::new();
+                for s in &v {
+                    cat.extend_from_slice(s.as_bytes());
+                }
+                o.b("batch_inverted", &cat);
+                o.f("from_repr_some", bool::from(Scalar::from_repr(a.b.a32()).is_some()));
+                o.f("from_repr_vartime_some", Scalar::from_repr_vartime(a.b.a32()).is_some());
+                o.f("is_odd", bool::from(PrimeField::is_odd(&x)));
+                let s1: Scalar = [x, y, x].iter().sum();
+                let p1: Scalar = [x, y, x].iter().product();
+                o.b("sum", s1.as_bytes());
+                o.b("product", p1.as_bytes());
+                let mut w = [0u8; 64];
+                w[..32].copy_from_slice(&a.b.a32());
+                w[32..].copy_from_slice(&b.b.a32());
+                o.b("wide", Scalar::from_bytes_mod_order_wide(&w).as_bytes());
             }
             Step::ToMont { a } => {
                 let p = need_e!(*a);
